@@ -41,6 +41,13 @@ class ChunksIter:
         self.s, self.n, self.i, self.exact = s, n, 0, exact
 
 
+class WindowsIter:
+    __slots__ = ("s", "n", "i")
+
+    def __init__(self, s, n):
+        self.s, self.n, self.i = s, n, 0
+
+
 class CharsIter:
     __slots__ = ("s", "i")
 
@@ -241,6 +248,12 @@ def iter_next(I, it, depth):
         if it.i < len(it.v):
             it.i += 1
             return some(it.v[it.i - 1])
+        return NONE()
+    if isinstance(it, WindowsIter):
+        if it.i + it.n <= it.s.len:
+            sl = Slice(it.s.heap, it.s.start + it.i, it.n, it.s.esz)
+            it.i += 1
+            return some(sl)
         return NONE()
     if isinstance(it, ChunksIter):
         if it.i + it.n <= it.s.len:
@@ -478,6 +491,10 @@ def call(I, fr, name, fname, k, args, depth):
                 break
         return it
 
+    if name.endswith("slice::<impl [T]>::windows"):
+        if args[1] == 0:
+            raise Panic("windows(0)")
+        return WindowsIter(as_slice(I, args[0]), args[1])
     if name.endswith("slice::<impl [T]>::chunks_exact"):
         return ChunksIter(as_slice(I, args[0]), args[1])
     if name.endswith("slice::<impl [T]>::chunks"):
@@ -572,6 +589,24 @@ def call(I, fr, name, fname, k, args, depth):
         if o.vi == 0:
             return args[1]
         return call_closure(I, args[2], [o.fields[0]], depth)
+    if name.endswith("cell::Cell<T> as std::default::Default>::default") or name.endswith("cell::Cell<T> as core::default::Default>::default"):
+        g = k.get("g", [])
+        inner = None
+        if g:
+            mm = re.match(r"^(?:std|core)::cell::Cell<(.*)>$", g[0])
+            if mm:
+                g = [mm.group(1)]
+            cand = "<%s as std::default::Default>::default" % g[0]
+            body = I.P.fns.get(I.P.norm(cand, False))
+            if body is not None:
+                inner = I.run(body, [], depth + 1)
+            elif g[0] in INT_TYPES or g[0] == "bool":
+                inner = 0
+            elif g[0].startswith("std::option::Option<") or g[0].startswith("core::option::Option<"):
+                inner = NONE()
+        if inner is None:
+            raise Unsupported("Cell::default for %r" % (g,))
+        return Adt("core::cell::Cell", 0, "Cell", [inner])
     if name.endswith("cell::Cell::<T>::new"):
         return Adt("core::cell::Cell", 0, "Cell", [args[0]])
     if name.endswith("cell::Cell::<T>::get"):
@@ -832,6 +867,22 @@ def call(I, fr, name, fname, k, args, depth):
     if name.endswith("slice::<impl [T]>::to_vec") or name.endswith("slice::hack::to_vec"):
         sl = as_slice(I, args[0])
         return list(sl.heap[sl.start:sl.start + sl.len])
+    if name.endswith("boxed::Box::<T>::new"):
+        from .minimir import UninitBox
+
+        return UninitBox(args[0], True)
+    if name.endswith("boxed::Box::<T>::new_uninit"):
+        from .minimir import UninitBox
+
+        return UninitBox()
+    if name.endswith("boxed::box_assume_init_into_vec_unsafe"):
+        v = args[0].cell[0]
+        if not isinstance(v, list):
+            raise Unsupported("box_assume_init_into_vec_unsafe of %r" % (v,))
+        return list(v)
+    if name.endswith("boxed::Box::<std::mem::MaybeUninit<T>, A>::assume_init") or name.endswith("boxed::Box::<core::mem::MaybeUninit<T>, A>::assume_init"):
+        args[0].init = True
+        return args[0]
     if name.endswith("vec::from_elem"):
         import copy as _copy
 
